@@ -519,9 +519,10 @@ class ESME:
                     if isinstance(smpp_message, SubmitSm):
                         await self.hook.send_error(smpp_message, err, self.client_id)
                     # ValueError indicates problem with building the PDU, which is likely the
-                    # result of invalid parameters passed by user application.
-                    # Otherwise, it is a transport error and we must stop.
-                    if not isinstance(err, ValueError):
+                    # result of invalid parameters passed by user application. The same goes for
+                    # LookupError (unknown codec or data coding) and struct.error (a value that
+                    # does not fit its PDU field). Otherwise, it is a transport error and we must stop.
+                    if not isinstance(err, (ValueError, LookupError, StructError)):
                         raise
 
                 if self.testing:
